@@ -51,6 +51,52 @@ def implied_constant(node, recv_src, fn_assigns):
     return False
 
 
+def _guard_evidence(fi, node, recv, assigns):
+    """'unknown' if the function tests the receiver's kind somewhere -- isinstance(recv, <kinds that exclude Parameter>),
+    possibly through a local alias of the receiver, or hands it to a predicate call in a guard -- without that test
+    dominating the read in the if/and form this rule follows; 'none' if there is no such test at all (or every test
+    admits Parameter)."""
+    def kinds_of(t):
+        ks = []
+        for e in (t.elts if isinstance(t, ast.Tuple) else [t]):
+            if isinstance(e, ast.Name) and e.id in assigns and len(assigns[e.id]) == 1 and isinstance(assigns[e.id][0], ast.Tuple):
+                ks += [src(x) for x in assigns[e.id][0].elts]
+            else:
+                ks.append(src(e))
+        return ks
+
+    base = recv
+    names = {recv}
+    # local aliases of the receiver (lhs = expr.left) and the receiver's own alias source
+    for nm, vals in assigns.items():
+        if any(isinstance(v, ast.AST) and src(v) == recv for v in vals):
+            names.add(nm)
+    if recv in assigns:
+        names |= {src(v) for v in assigns[recv] if isinstance(v, ast.AST)}
+    # a receiver bound by a comprehension is only in scope inside that comprehension
+    scope = fi.node
+    p_ = getattr(node, "_parent", None)
+    while p_ is not None and p_ is not fi.node:
+        if isinstance(p_, (ast.ListComp, ast.GeneratorExp, ast.SetComp, ast.DictComp)) and any(isinstance(x, ast.Name) and x.id == recv for g in p_.generators for x in ast.walk(g.target)):
+            scope = p_
+            break
+        p_ = getattr(p_, "_parent", None)
+    # a duck-typing guard is positively the wrong one: a Parameter has .value too
+    for t, pol in dominating_guards(node):
+        if pol and isinstance(t, ast.Call) and dotted(t.func) == "hasattr" and len(t.args) == 2 and src(t.args[0]) in names and isinstance(t.args[1], ast.Constant) and t.args[1].value in ("value", "_value"):
+            return "none"
+    for c in (ast.walk(scope) if scope is not fi.node else walk_local(fi.node)):
+        if isinstance(c, ast.Call) and dotted(c.func) == "isinstance" and len(c.args) == 2 and src(c.args[0]) in names:
+            ks = kinds_of(c.args[1])
+            if "Constant" in ks and "Parameter" not in ks:
+                return "unknown"
+    for t, _pol in dominating_guards(node) + preceding_exit_guards(node):
+        for c in ast.walk(t):
+            if isinstance(c, ast.Call) and dotted(c.func) not in ("isinstance", "hasattr", "len") and any(src(a) in names for a in c.args):
+                return "unknown"
+    return "none"
+
+
 def check(prog, rep):
     # ------------------------------------------------------------------ F1
     ok = not prog.is_subclass("Parameter", "Constant") and not prog.is_subclass("Constant", "Parameter")
@@ -93,6 +139,10 @@ def check(prog, rep):
                     continue
             if implied_constant(n, recv, assigns):
                 rep.ob("R12.1", construct, True, f"dominated by isinstance({recv}, Constant): cannot be a Parameter", loc=loc, detail="constant-guarded")
+                continue
+            verdict = _guard_evidence(fi, n, recv, assigns)
+            if verdict == "unknown":
+                rep.undecided(f"{construct}: {recv} is tested with isinstance(.., Constant) / by a predicate in this function, but the test does not dominate the read in a way this rule can follow (loop-else, flag, helper): not decided")
                 continue
             rep.ob("R12.1", construct, False,
                    f"reads {recv}.{n.attr} while building derived artefacts without an isinstance({recv}, Constant) guard: if {recv} is a Parameter its current value is frozen into a closure / rule term / LP datum / degree and later Parameter.set() calls are ignored",
